@@ -49,14 +49,15 @@ func (calc *convexHullCalculator) getConvexHull() geom.T {
 	if len(calc.inputPts) == 0 {
 		return nil
 	}
-	if len(calc.inputPts)/calc.stride == 1 {
-		return geom.NewPointFlat(calc.layout, calc.inputPts)
-	}
-	if len(calc.inputPts)/calc.stride == 2 {
-		return geom.NewLineStringFlat(calc.layout, calc.inputPts)
-	}
-
 	reducedPts := transform.UniqueCoords(calc.layout, comparator{}, calc.inputPts)
+
+	// The Graham scan needs at least three distinct points.
+	if len(reducedPts)/calc.stride == 1 {
+		return geom.NewPointFlat(calc.layout, reducedPts)
+	}
+	if len(reducedPts)/calc.stride == 2 {
+		return geom.NewLineStringFlat(calc.layout, reducedPts)
+	}
 
 	// use heuristic to reduce points, if large
 	if len(calc.inputPts)/calc.stride > 50 {
